@@ -15,6 +15,7 @@ class PathCtx:
         self.isnull = set()
         self.consts = {}       # inst id -> int
         self.truth = {}        # cond inst id -> bool (branch edges taken / assumes)
+        self.pending = []      # disjunctive facts (operand, truth) not yet decomposable
 
     def copy(self):
         c = PathCtx(self.fn)
@@ -23,6 +24,7 @@ class PathCtx:
         c.isnull = set(self.isnull)
         c.consts = dict(self.consts)
         c.truth = dict(self.truth)
+        c.pending = list(self.pending)
         return c
 
     def resolve(self, op, depth=0):
@@ -146,14 +148,27 @@ class PathCtx:
         return None
 
     def learn(self, op, truth):
-        """record that i1 operand `op` is `truth`; derive null facts"""
+        """record that i1 operand `op` is `truth`; derive null facts; revisit earlier disjunctions"""
+        self._learn(op, truth)
+        for _ in range(3):
+            pend, self.pending = self.pending, []
+            progressed = False
+            for o, t in pend:
+                n0 = len(self.truth)
+                self._learn(o, t, revisit=True)
+                if len(self.truth) > n0:
+                    progressed = True
+            if not progressed:
+                break
+
+    def _learn(self, op, truth, revisit=False):
         r = self.resolve(op)
         if r[0] != "i":
             return
         i = self.fn.insts[r[1]]
         self.truth[i.id] = truth
         if i.op == "xor" and i.ops[1][0] == "c" and i.ops[1][1] == 1:
-            self.learn(i.ops[0], not truth)
+            self._learn(i.ops[0], not truth)
         elif i.op == "icmp" and i.d["pred"] in ("eq", "ne"):
             eq = (i.d["pred"] == "eq") == truth
             for x, y in ((i.ops[0], i.ops[1]), (i.ops[1], i.ops[0])):
@@ -168,33 +183,35 @@ class PathCtx:
                     self.consts[rx[1]] = vy[1]
         elif i.op in ("and", "or") and i.d.get("w") == 1:
             if (i.op == "and") == truth:
-                self.learn(i.ops[0], truth)
-                self.learn(i.ops[1], truth)
+                self._learn(i.ops[0], truth)
+                self._learn(i.ops[1], truth)
             else:
                 # disjunctive information: if one side is already decided the other way, the other side carries it
                 a, b = self.cond(i.ops[0]), self.cond(i.ops[1])
                 if a is not None and a != truth:
-                    self.learn(i.ops[1], truth)
+                    self._learn(i.ops[1], truth)
                 elif b is not None and b != truth:
-                    self.learn(i.ops[0], truth)
+                    self._learn(i.ops[0], truth)
+                elif a is None and b is None and (op, truth) not in self.pending:
+                    self.pending.append((op, truth))
         elif i.op == "select" and i.d.get("w") == 1:
             c, x, y = i.ops
             if y[0] == "c" and y[1] == 0:          # c && x
                 if truth:
-                    self.learn(c, True)
-                    self.learn(x, True)
+                    self._learn(c, True)
+                    self._learn(x, True)
                 elif self.cond(c) is True:
-                    self.learn(x, False)
+                    self._learn(x, False)
                 elif self.cond(x) is True:
-                    self.learn(c, False)
+                    self._learn(c, False)
             elif x[0] == "c" and x[1] == 1:        # c || y
                 if not truth:
-                    self.learn(c, False)
-                    self.learn(y, False)
+                    self._learn(c, False)
+                    self._learn(y, False)
                 elif self.cond(c) is False:
-                    self.learn(y, True)
+                    self._learn(y, True)
                 elif self.cond(y) is False:
-                    self.learn(c, True)
+                    self._learn(c, True)
 
     def enter(self, frm, to):
         """take CFG edge frm->to (block objects); returns False if the edge contradicts known facts"""
